@@ -870,8 +870,8 @@ func (h *nfsHarness) probeAll(step int, skip *nfsClient) {
 	}
 	// An owner that holds nothing on a file must see exactly what the
 	// lock-free probe client sees; to bound the cost such owners only
-	// probe every fourth step.
-	skipIdle := step%4 != 3
+	// probe every second step.
+	skipIdle := step%2 != 1
 	var reqs []locktReq
 	type cellType struct {
 		c  int
